@@ -40,12 +40,30 @@ def run_query(fd, q):
     v = np.array([q['values'][str(e)] for e in eids], dtype=DT[q.get('vdtype', 'float')])
     if q.get('drop_last'):
         v = v[:-1]
-    kw = {'mode': q['mode'], 'order1_only': q['order1']}
+    omit = set(q.get('omit', []))
+    kw = {}
+    if 'mode' not in omit:
+        kw['mode'] = q['mode']
+    if 'order1' not in omit:
+        kw['order1_only'] = q['order1']
+    if 'raise_neg' in q and 'raise_neg' not in omit:
+        kw['raise_negative_volume'] = q['raise_neg']
     if q['weight'] == 'false':
         kw['weight'] = False
     elif q['weight'] == 'explicit':
         kw['weight'] = np.array([[q['weights'][str(e)]] for e in eids],
                                 dtype=DT[q.get('wdtype', 'float')])
+    elif 'omit' in q and 'weight' not in omit:
+        kw['weight'] = None
+    inc = q.get('inc')
+    if inc:
+        if inc['kind'] == 'own':
+            kw['incidence'] = fd.calculate_incidence_matrix(order1_only=inc['order1'])
+        else:
+            import scipy.sparse as sp
+            kw['incidence'] = sp.csr_matrix(np.array(
+                [[inc['cols'][str(e)][i] for e in eids] for i in range(inc['nrows'])],
+                dtype=bool).reshape(inc['nrows'], len(eids)))
     return fd.convert_elemental2nodal(v, **kw), eids
 
 
